@@ -249,6 +249,14 @@ func (r *Run) Sample(class string, v any) {
 	r.samples = append(r.samples, map[string]any{"class": class, "case": v})
 }
 
+// Abort ends the run now: the message is recorded as an infrastructure error, what has been found so far is reported the
+// usual way (exit 1 if there are violations, else exit 2: no verdict). For harnesses that find themselves unable to continue.
+func (r *Run) Abort(format string, a ...any) {
+	r.Infra(format, a...)
+	fmt.Fprintf(os.Stderr, "INFRASTRUCTURE ERROR: "+format+"\n", a...)
+	os.Exit(r.finish())
+}
+
 // FirstPass reports whether the body is being run for the first time (serial history phases only, see Main).
 func (r *Run) FirstPass() bool { return r.firstPass }
 
